@@ -20,22 +20,24 @@
   (`packetOut_specWalk`).
   Instructions through `Spec.walkInstrs` for the kinds in `InstrKnown` (`instr_accept`), the empty match
   (`matchNew_accept`), and a whole FlowMod — any command 0..4, any accepted match, any list of known instructions —
-  through the TOP-LEVEL `Spec.walk` (`flowMod_embeds2`, `flowMod_topWalk`).  Walker-side lemmas for OXM TLVs and
-  non-empty matches (`walkOxm_accept`, `walkOxms_flatten`, `walkMatch_accept`) are in OFV/Lemmas/Walk4.lean; they are not
-  yet connected to `MatchField.marshalM` / `Match.marshalM` (the `hmatch` hypothesis of `flowMod_topWalk` is the interface).
-  Not done (time): a non-empty match and set-field / reg-load2 over the model encoders, packet-out through the top-level
-  `Spec.walk`, learn / dec-ttl-cnt-ids / nat / conntrack actions, the BundleAdd frame, learn specs.
+  through the TOP-LEVEL `Spec.walk` (`flowMod_embeds2`, `flowMod_topWalk`).  Match fields generically over the walker's
+  width table (`FieldKnown`, `matchField_accept`, `fieldKnown_mk`, `fieldKnown_mkMasked`), any match of such fields through
+  `Spec.walkMatch` (`match_accept`), the flow-mod with such a match (`flowMod_topWalk_known`), set-field of a known
+  field (`actionSetField_accept`, also in `ActionKnown`).  Walker-side lemmas: OFV/Lemmas/Walk2..Walk5.lean.
+  Not done (time): reg-load2, packet-out through the top-level `Spec.walk`, learn / dec-ttl-cnt-ids / nat / conntrack
+  actions, the BundleAdd frame, learn specs, tun_metadata fields (variable length).
   No encoding produced by the model was found that the walker rejects.
 -/
 import OFV.Props.C02b
 import OFV.Lemmas.Walk2
 import OFV.Lemmas.Walk3
 import OFV.Lemmas.Walk4
+import OFV.Lemmas.Walk5
 import OFV.Lemmas.LayNat
 import OFV.Lemmas.FrameMsg
 import OFV.Lemmas.RepMsg
 namespace OFV.Props.C02c
-open OFV OFV.Go OFV.Model OFV.Spec OFV.Elem OFV.Walk2 OFV.Walk3 OFV.Walk4 OFV.Props.C02b
+open OFV OFV.Go OFV.Model OFV.Spec OFV.Elem OFV.Walk2 OFV.Walk3 OFV.Walk4 OFV.Walk5 OFV.Props.C02b
 
 /-- a list of encodings whose sizes are the reported 16-bit sizes, fitting 16 bits in total -/
 theorem flat_sum (ls : List UInt16) (bss : List Bytes) (h : bss.map List.length = ls.map UInt16.toNat)
@@ -374,6 +376,117 @@ example : ∃ bs v2, Hello.marshalM (.obj "Hello" [.obj "Header" [.num 4, .num 0
         rw [e] at h; cases h; decide) rfl
   exact ⟨_, hw⟩
 
+/-! ### match fields and the match through the real walker -/
+
+theorem shl8_fieldByte : ∀ f : Fin 128, (shl8 (n8 f.val) 1).toNat = 2 * f.val ∧ (shl8 (n8 f.val) 1 ||| 1).toNat = 2 * f.val + 1 := by
+  decide
+
+/-- the subtree the walker builds for the OXM TLV `b` -/
+def oxmTree (b : Bytes) : Tree :=
+  match walkOxm b with
+  | .ok (t, _) => t
+  | .error _ => .node "rejected" b []
+
+theorem oxmTree_of_accept (b : Bytes) (t : Tree) (h : OxmAccept b t) : OxmAccept b (oxmTree b) := by
+  have := h.2 []
+  rw [List.append_nil] at this
+  have e : oxmTree b = t := by unfold oxmTree; rw [this]
+  rw [e]; exact h
+
+/-- MATCH FIELDS FOR WHICH ACCEPTANCE BY THE REAL WALKER IS PROVED — generically over the walker's table: any
+    non-experimenter (class, field) the table knows with a fixed width `w` (everything but tun_metadata: in_port,
+    eth_type, eth_dst/src, vlan_vid, ip_proto, ipv4/ipv6 addresses, ports, reg0..15, ct_state/zone/mark/label, …), no
+    experimenter id, a value payload of exactly `w` bytes, optionally a mask payload of `w` bytes, and the stored Length
+    `w` (`2·w` with a mask) — what the constructors of match.go / nx_match.go store -/
+def FieldKnown (v : V) : Prop :=
+  ∃ c f hm ln val mask lv w, v = .obj "MatchField" [.num c, .num f, .num hm, .num ln, .num 0, val, mask] ∧
+    c < 65535 ∧ f < 128 ∧ oxmLegalWidth c f = some w ∧ ¬ (c = 1 ∧ 40 ≤ f ∧ f ≤ 103) ∧
+    MatchPayload.lenM val = .ok (lv, val) ∧ lv.toNat = w ∧
+    (hm = 0 ∨ hm ≠ 0 ∧ MatchPayload.lenM mask = .ok (lv, mask)) ∧ ln = (if hm = 0 then w else 2 * w) ∧ ln < 256
+
+/-- ACCEPTANCE of a match field: the real walker's `walkOxm` accepts the encoding of EVERY known field (any payload
+    bytes), whatever follows it, consuming exactly its bytes -/
+theorem matchField_accept (v : V) (hk : FieldKnown v) (bs : Bytes) (v2 : V) (h : MatchField.marshalM v = .ok (bs, v2)) :
+    OxmAccept bs (oxmTree bs) := by
+  obtain ⟨c, f, hm, ln, val, mask, lv, w, rfl, hc, hf, hw, hnv, hlv, hlw, hmk, hln, hlt⟩ := hk
+  obtain ⟨c', f', hm', ln', eid', val', mask', heq, a0, a3, a2, lv', lm', hlv', hlm', hsz⟩ := matchField_wire _ bs v2 h
+  cases heq
+  rw [hlv] at hlv'
+  cases hlv'
+  obtain ⟨s0, s1⟩ := shl8_fieldByte ⟨f, hf⟩
+  simp only at s0 s1
+  simp only [if_true] at hsz
+  rw [Nat.mod_eq_of_lt (by omega)] at a0
+  rw [Nat.mod_eq_of_lt hlt] at a3
+  by_cases hm0 : hm = 0
+  · have elm : lm'.toNat = 0 := by
+      rcases hlm' with ⟨_, rfl⟩ | ⟨h1, _⟩
+      · rfl
+      · exact absurd hm0 h1
+    rw [if_pos hm0, s0] at a2
+    rw [if_pos hm0] at hln
+    have hlen : bs.length = 4 + ln := by omega
+    refine oxmTree_of_accept _ _ ⟨by omega, fun tail => walkOxm_accept bs tail c (2 * f) ln w hlen ?_ ?_ ?_ (by omega) ?_ ?_ ?_⟩
+    · rw [u16At_eq_beAt _ _ (by omega), a0]
+    · rw [u8At_eq_beAt _ _ (by omega), a2]
+    · rw [u8At_eq_beAt _ _ (by omega), a3]
+    · rw [Nat.mul_div_cancel_left f (by decide)]; exact hw
+    · rw [Nat.mul_div_cancel_left f (by decide)]; exact hnv
+    · have : 2 * f % 2 = 0 := by omega
+      rw [this]; simpa using hln
+  · have elm : lm' = lv := by
+      rcases hlm' with ⟨h0, _⟩ | ⟨_, hm1'⟩
+      · exact absurd h0 hm0
+      · rcases hmk with h0 | ⟨_, hm1⟩
+        · exact absurd h0 hm0
+        · rw [hm1] at hm1'; cases hm1'; rfl
+    subst elm
+    rw [if_neg hm0, s1] at a2
+    rw [if_neg hm0] at hln
+    have hlen : bs.length = 4 + ln := by omega
+    have hd : (2 * f + 1) / 2 = f := by omega
+    refine oxmTree_of_accept _ _ ⟨by omega, fun tail => walkOxm_accept bs tail c (2 * f + 1) ln w hlen ?_ ?_ ?_ (by omega) ?_ ?_ ?_⟩
+    · rw [u16At_eq_beAt _ _ (by omega), a0]
+    · rw [u8At_eq_beAt _ _ (by omega), a2]
+    · rw [u8At_eq_beAt _ _ (by omega), a3]
+    · rw [hd]; exact hw
+    · rw [hd]; exact hnv
+    · have : (2 * f + 1) % 2 = 1 := by omega
+      rw [this]; simpa using hln
+
+/-- set-field (type 25) as NewActionSetField(field) stores it (stored Length = Len()), for EVERY known field: the real
+    walker accepts the action — the embedded OXM TLV is legal, the action is 4 + the field rounded up to 8, zero padded -/
+theorem actionSetField_accept (hd f : V) (hkf : FieldKnown f) (l : UInt16) (v1 : V) (bs : Bytes) (v2 : V)
+    (hl : ActionSetField.lenM (.obj "ActionSetField" [hd, f]) = .ok (l, v1))
+    (hwf : ahdr (.obj "ActionSetField" [hd, f]) = some (25, l.toNat))
+    (h : ActionSetField.marshalM (.obj "ActionSetField" [hd, f]) = .ok (bs, v2)) : Accepted bs := by
+  obtain ⟨hal, a0, a2, hd', f', fb, f'', heq, hfm, hmid, hzero⟩ := actionSetField_wire _ bs v2 _ _ hwf h
+  cases heq
+  have hs := C06b.actionSetField_size _ l v1 bs v2 hl h
+  have hlt := l.toNat_lt
+  rw [Nat.mod_eq_of_lt hlt, ← hs] at a2
+  -- the size: 4 + the field, rounded up
+  unfold ActionSetField.lenM at hl
+  obtain ⟨⟨fl, f1⟩, hfl, hl2⟩ := bind_ok_inv _ _ _ hl
+  have el : l = Model.round8 (4 + fl) := by cases hl2; rfl
+  have hfsz := C06.matchField_size _ fl f1 fb f'' hfl hfm
+  have hfle := C06b.matchField_len_le _ _ _ hfl
+  have hp : (2 : Nat) ^ 16 = 65536 := rfl
+  have e4 : (4 + fl : UInt16).toNat = 4 + fb.length := by
+    have h4 : (4 : UInt16).toNat = 4 := rfl
+    rw [UInt16.toNat_add, h4, hp, hfsz]; omega
+  have hge := C02.round8_ge (4 + fl) (by omega)
+  have hra := C02.round8_aligned (4 + fl)
+  rw [← el, ← hs, e4] at hge
+  rw [← el, ← hs] at hra
+  have hox := matchField_accept _ hkf fb f'' hfm
+  have hpos := hox.1
+  refine accepted_of _ _ (accept_setField bs fb (oxmTree fb) (by omega) hal (by rw [a0]) a2 hox ?_ ?_)
+  · unfold Spec.round8; omega
+  · have : bs.drop 4 = (bs.drop 4).take fb.length ++ (bs.drop 4).drop fb.length := (List.take_append_drop _ _).symm
+    rw [this, hmid, List.drop_drop, hzero]
+    rfl
+
 /-! ### single actions: the REAL walker (`Spec.walkAction`) accepts what the library writes -/
 
 /-- an output action with the header NewActionOutput stores (type 0, length 16), ANY port and max-length, 6 zero pad
@@ -433,7 +546,7 @@ def nxFixedKinds : List String := ["NXActionConjunction", "NXActionRegLoad", "NX
     output (6 zero pad bytes), group, set-queue, dec-nw-ttl, pop-vlan, push-vlan/mpls/pbb, pop-mpls, set-mpls-ttl,
     set-nw-ttl, and the fixed-size Nicira actions conjunction, reg-load, reg-move, resubmit, resubmit-table (also the
     ct variant), output-reg, ct-clear, dec-ttl, controller (whatever length is stored), note (any note of at most
-    65 518 bytes) — any field values -/
+    65 518 bytes), set-field of any known match field with the stored Length = Len() — any field values -/
 def ActionKnown (v : V) : Prop :=
   (∃ port ml, v = .obj "ActionOutput" [ActionHeader.mk 0 16, .num port, .num ml, .bytes (zeros 6)]) ∨
   (v.kind = "ActionGroup" ∧ ahdr v = some (22, 8)) ∨
@@ -446,7 +559,10 @@ def ActionKnown (v : V) : Prop :=
   (v.kind = "ActionNwTtl" ∧ ahdr v = some (23, 8)) ∨
   (v.kind ∈ nxFixedKinds ∧ ∃ sub sz, nxFixed.lookup sub = some sz ∧ nxhdr v = some (0xffff, sz, 0x2320, sub)) ∨
   (v.kind = "NXActionController" ∧ ∃ ln, nxhdr v = some (0xffff, ln, 0x2320, 20)) ∨
-  (∃ hd note ln, v = .obj "NXActionNote" [hd, .bytes note] ∧ note.length ≤ 65518 ∧ nxhdr v = some (0xffff, ln, 0x2320, 8))
+  (∃ hd note ln, v = .obj "NXActionNote" [hd, .bytes note] ∧ note.length ≤ 65518 ∧ nxhdr v = some (0xffff, ln, 0x2320, 8)) ∨
+  (∃ hd f l v1, v = .obj "ActionSetField" [hd, f] ∧ FieldKnown f ∧
+    ActionSetField.lenM (.obj "ActionSetField" [hd, f]) = .ok (l, v1) ∧
+    ahdr (.obj "ActionSetField" [hd, f]) = some (25, l.toNat))
 
 macro "act_leaf0" v:ident hk:ident h:ident K:ident : tactic => `(tactic| (
   have e : Action.marshalM $v = $K $v := by
@@ -458,7 +574,8 @@ macro "act_leaf0" v:ident hk:ident h:ident K:ident : tactic => `(tactic| (
 theorem action_accept (v : V) (hk : ActionKnown v) (bs : Bytes) (v2 : V) (h : Action.marshalM v = .ok (bs, v2)) :
     Accepted bs := by
   rcases hk with ⟨port, ml, rfl⟩ | ⟨hk, ha⟩ | ⟨hk, ha⟩ | ⟨hk, ha⟩ | ⟨hk, ha⟩ | ⟨hk, ty, hty, ha⟩ | ⟨hk, ha⟩ | ⟨hk, ha⟩ |
-    ⟨hk, ha⟩ | ⟨hk, sub, sz, hs, hn⟩ | ⟨hk, ln, hn⟩ | ⟨hd, note, ln, rfl, hfit, hn⟩
+    ⟨hk, ha⟩ | ⟨hk, sub, sz, hs, hn⟩ | ⟨hk, ln, hn⟩ | ⟨hd, note, ln, rfl, hfit, hn⟩ |
+    ⟨hd, f, l, v1, rfl, hkf, hl, hwf⟩
   · have e : Action.marshalM (.obj "ActionOutput" [ActionHeader.mk 0 16, .num port, .num ml, .bytes (zeros 6)]) =
         ActionOutput.marshalM (.obj "ActionOutput" [ActionHeader.mk 0 16, .num port, .num ml, .bytes (zeros 6)]) := by
       simp [Action.marshalM, Action.marshalD, Action.marshalLeaf, V.kind]
@@ -518,6 +635,10 @@ theorem action_accept (v : V) (hk : ActionKnown v) (bs : Bytes) (v2 : V) (h : Ac
     rw [e] at h
     obtain ⟨a, b, c, _⟩ := nxNote_ok ln hd note bs v2 hfit hn h
     exact accepted_of _ _ (accept_note bs (by omega) b a.code_ok a.len_ok a.vendor_ok a.sub_ok)
+  · have e : Action.marshalM (.obj "ActionSetField" [hd, f]) = ActionSetField.marshalM (.obj "ActionSetField" [hd, f]) := by
+      simp [Action.marshalM, Action.marshalD, Action.marshalLeaf, V.kind]
+    rw [e] at h
+    exact actionSetField_accept hd f hkf l v1 bs v2 hl hwf h
 
 /-! ### buckets and group-mod through the real walker -/
 
@@ -1168,84 +1289,6 @@ example : exInstrs.foldlM FlowMod.addInstruction (FlowMod.new 7) = .ok exFlowMod
           · exact ⟨actionWF_output 7, known_output 7⟩
           · exact ⟨actionWF_group 3, known_group 3⟩) h
   exact ⟨_, hw⟩
-
-/-! ### match fields and the match through the real walker -/
-
-theorem shl8_fieldByte : ∀ f : Fin 128, (shl8 (n8 f.val) 1).toNat = 2 * f.val ∧ (shl8 (n8 f.val) 1 ||| 1).toNat = 2 * f.val + 1 := by
-  decide
-
-/-- the subtree the walker builds for the OXM TLV `b` -/
-def oxmTree (b : Bytes) : Tree :=
-  match walkOxm b with
-  | .ok (t, _) => t
-  | .error _ => .node "rejected" b []
-
-theorem oxmTree_of_accept (b : Bytes) (t : Tree) (h : OxmAccept b t) : OxmAccept b (oxmTree b) := by
-  have := h.2 []
-  rw [List.append_nil] at this
-  have e : oxmTree b = t := by unfold oxmTree; rw [this]
-  rw [e]; exact h
-
-/-- MATCH FIELDS FOR WHICH ACCEPTANCE BY THE REAL WALKER IS PROVED — generically over the walker's table: any
-    non-experimenter (class, field) the table knows with a fixed width `w` (everything but tun_metadata: in_port,
-    eth_type, eth_dst/src, vlan_vid, ip_proto, ipv4/ipv6 addresses, ports, reg0..15, ct_state/zone/mark/label, …), no
-    experimenter id, a value payload of exactly `w` bytes, optionally a mask payload of `w` bytes, and the stored Length
-    `w` (`2·w` with a mask) — what the constructors of match.go / nx_match.go store -/
-def FieldKnown (v : V) : Prop :=
-  ∃ c f hm ln val mask lv w, v = .obj "MatchField" [.num c, .num f, .num hm, .num ln, .num 0, val, mask] ∧
-    c < 65535 ∧ f < 128 ∧ oxmLegalWidth c f = some w ∧ ¬ (c = 1 ∧ 40 ≤ f ∧ f ≤ 103) ∧
-    MatchPayload.lenM val = .ok (lv, val) ∧ lv.toNat = w ∧
-    (hm = 0 ∨ hm ≠ 0 ∧ MatchPayload.lenM mask = .ok (lv, mask)) ∧ ln = (if hm = 0 then w else 2 * w) ∧ ln < 256
-
-/-- ACCEPTANCE of a match field: the real walker's `walkOxm` accepts the encoding of EVERY known field (any payload
-    bytes), whatever follows it, consuming exactly its bytes -/
-theorem matchField_accept (v : V) (hk : FieldKnown v) (bs : Bytes) (v2 : V) (h : MatchField.marshalM v = .ok (bs, v2)) :
-    OxmAccept bs (oxmTree bs) := by
-  obtain ⟨c, f, hm, ln, val, mask, lv, w, rfl, hc, hf, hw, hnv, hlv, hlw, hmk, hln, hlt⟩ := hk
-  obtain ⟨c', f', hm', ln', eid', val', mask', heq, a0, a3, a2, lv', lm', hlv', hlm', hsz⟩ := matchField_wire _ bs v2 h
-  cases heq
-  rw [hlv] at hlv'
-  cases hlv'
-  obtain ⟨s0, s1⟩ := shl8_fieldByte ⟨f, hf⟩
-  simp only at s0 s1
-  simp only [if_true] at hsz
-  rw [Nat.mod_eq_of_lt (by omega)] at a0
-  rw [Nat.mod_eq_of_lt hlt] at a3
-  by_cases hm0 : hm = 0
-  · have elm : lm'.toNat = 0 := by
-      rcases hlm' with ⟨_, rfl⟩ | ⟨h1, _⟩
-      · rfl
-      · exact absurd hm0 h1
-    rw [if_pos hm0, s0] at a2
-    rw [if_pos hm0] at hln
-    have hlen : bs.length = 4 + ln := by omega
-    refine oxmTree_of_accept _ _ ⟨by omega, fun tail => walkOxm_accept bs tail c (2 * f) ln w hlen ?_ ?_ ?_ (by omega) ?_ ?_ ?_⟩
-    · rw [u16At_eq_beAt _ _ (by omega), a0]
-    · rw [u8At_eq_beAt _ _ (by omega), a2]
-    · rw [u8At_eq_beAt _ _ (by omega), a3]
-    · rw [Nat.mul_div_cancel_left f (by decide)]; exact hw
-    · rw [Nat.mul_div_cancel_left f (by decide)]; exact hnv
-    · have : 2 * f % 2 = 0 := by omega
-      rw [this]; simpa using hln
-  · have elm : lm' = lv := by
-      rcases hlm' with ⟨h0, _⟩ | ⟨_, hm1'⟩
-      · exact absurd h0 hm0
-      · rcases hmk with h0 | ⟨_, hm1⟩
-        · exact absurd h0 hm0
-        · rw [hm1] at hm1'; cases hm1'; rfl
-    subst elm
-    rw [if_neg hm0, s1] at a2
-    rw [if_neg hm0] at hln
-    have hlen : bs.length = 4 + ln := by omega
-    have hd : (2 * f + 1) / 2 = f := by omega
-    refine oxmTree_of_accept _ _ ⟨by omega, fun tail => walkOxm_accept bs tail c (2 * f + 1) ln w hlen ?_ ?_ ?_ (by omega) ?_ ?_ ?_⟩
-    · rw [u16At_eq_beAt _ _ (by omega), a0]
-    · rw [u8At_eq_beAt _ _ (by omega), a2]
-    · rw [u8At_eq_beAt _ _ (by omega), a3]
-    · rw [hd]; exact hw
-    · rw [hd]; exact hnv
-    · have : (2 * f + 1) % 2 = 1 := by omega
-      rw [this]; simpa using hln
 
 /-- ACCEPTANCE of a match: a match as NewMatch() + any AddField history leaves it (`C02.MatchWF`) whose fields are all
     known, with at most 65 524 field bytes: `Spec.walkMatch` accepts the encoding `Match.marshalM` produces — the
